@@ -89,13 +89,13 @@ include hs
 
 /-- processing one import record of a scan -/
 theorem step_import' (g : PGraph Str) (i : ImportRec) (hi : i ∈ imports) (hg : Inv a none g) :
-    Inv a none (addImport none g i) ∧ g.nodes ⊆ (addImport none g i).nodes ∧
-    g.edges ⊆ (addImport none g i).edges ∧
+    Inv a none (addImport₀ none g i) ∧ g.nodes ⊆ (addImport₀ none g i).nodes ∧
+    g.edges ⊆ (addImport₀ none g i).edges ∧
     (i.importer ≠ i.importee → i.importer ∈ g.nodes → i.importee ∈ g.nodes →
-      ⟨i.importer, i.importee, false⟩ ∈ (addImport none g i).edges) := by
+      ⟨i.importer, i.importee, false⟩ ∈ (addImport₀ none g i).edges) := by
   obtain ⟨hpar, f, hf, hif, himp⟩ := hs.imp_shape i hi
   have hex := P_excl a none hwf
-  unfold addImport
+  unfold addImport₀
   simp only []
   rw [hpar]
   -- first call: the import edge (a no-op unless both ends are nodes)
@@ -193,8 +193,9 @@ theorem modules_full' : Full' a (addAllModules none PGraph.empty mods) := by
 theorem build_full' : Full' a (buildGraph mods imports none) ∧
     (∀ e ∈ a.imports, ⟨render e.1, render e.2, false⟩ ∈ (buildGraph mods imports none).edges) := by
   unfold buildGraph
+  rw [addImport_none_fun]
   have h0 := modules_full' a hwf mods imports hs
-  have hinv : ∀ (g : PGraph Str) (x : ImportRec), x ∈ imports → Full' a g → Full' a (addImport none g x) := by
+  have hinv : ∀ (g : PGraph Str) (x : ImportRec), x ∈ imports → Full' a g → Full' a (addImport₀ none g x) := by
     intro g x hx hg
     obtain ⟨s1, s2, s3, -⟩ := step_import' a hwf mods imports hs g x hx hg.1
     exact ⟨s1, fun n hn => s2 (hg.2.1 n hn), fun c hc hl => s3 (hg.2.2 c hc hl)⟩
